@@ -48,19 +48,23 @@ def l1(rep, tier):
 
 def make_dissim(pa, rng):
     from sortedcontainers import SortedSet
-    alpha, de = rng.choice([0, 1, 3]), rng.choice([1, 2])
+    # alpha as a fraction (numerator, denominator): small positional weights keep the confidence of far-apart co-aligned
+    # units above 0 (with alpha >= 1 it is 0 as soon as the units do not overlap)
+    alpha, ad = rng.choice([(0, 1), (1, 1), (3, 1), (1, 4), (1, 2), (1, 4), (1, 8)])
+    de = rng.choice([1, 2])
+    af = alpha / ad
     if rng.random() < 0.5:
-        d = pa.CombinedCategoricalDissimilarity(alpha=alpha, beta=rng.choice([1, 2]), delta_empty=de)
-        return d, {"alpha": alpha, "de": de, "cattype": "abs", "M": []}
+        d = pa.CombinedCategoricalDissimilarity(alpha=af, beta=rng.choice([1, 2]), delta_empty=de)
+        return d, {"alpha": alpha, "ad": ad, "de": de, "cattype": "abs", "M": []}
     k = len(ALLCATS)
     m4 = [[0] * k for _ in range(k)]
     for i in range(k):
         for j in range(i):
             m4[i][j] = m4[j][i] = rng.choice([1, 2, 3, 4])
     m = np.array(m4, dtype=np.float32) / 4
-    d = pa.CombinedCategoricalDissimilarity(alpha=alpha, beta=1, delta_empty=de,
+    d = pa.CombinedCategoricalDissimilarity(alpha=af, beta=1, delta_empty=de,
                                             cat_dissim=pa.PrecomputedCategoricalDissimilarity(SortedSet(ALLCATS), m, delta_empty=de))
-    return d, {"alpha": alpha, "de": de, "cattype": "pre", "M": m4}
+    return d, {"alpha": alpha, "ad": ad, "de": de, "cattype": "pre", "M": m4}
 
 
 def grid_continuum(pa, rng, n_ann, max_units):
@@ -69,7 +73,7 @@ def grid_continuum(pa, rng, n_ann, max_units):
     for a in range(n_ann):
         c.add_annotator(f"g{a}")
         for _ in range(rng.randint(0 if a else 1, max_units)):
-            s = rng.randint(0, 6)
+            s = rng.randint(0, 9)           # durations <= 3 on 0..12: hand-built tuples often pair units with a gap between them
             c.add(f"g{a}", Segment(float(s), float(s + rng.randint(1, 3))), rng.choice(LABS))
     return c
 
@@ -119,12 +123,13 @@ def disorder_records(pa, rng, count, rep):
         while (A_other["cattype"] == A["cattype"] and A_other["M"] == A["M"]) and tries < 5:
             d_other, A_other = make_dissim(pa, rng)
             tries += 1
-        A_other = dict(A_other, alpha=A["alpha"], de=A["de"])
+        A_other = dict(A_other, alpha=A["alpha"], ad=A["ad"], de=A["de"])
+        af = A["alpha"] / A["ad"]
         if A_other["cattype"] == "abs":
-            d_other = pa.CombinedCategoricalDissimilarity(alpha=A["alpha"], beta=1, delta_empty=A["de"])
+            d_other = pa.CombinedCategoricalDissimilarity(alpha=af, beta=1, delta_empty=A["de"])
         else:
             from sortedcontainers import SortedSet
-            d_other = pa.CombinedCategoricalDissimilarity(alpha=A["alpha"], beta=1, delta_empty=A["de"],
+            d_other = pa.CombinedCategoricalDissimilarity(alpha=af, beta=1, delta_empty=A["de"],
                                                           cat_dissim=pa.PrecomputedCategoricalDissimilarity(SortedSet(ALLCATS), np.array(A_other["M"], dtype=np.float32) / 4, delta_empty=A["de"]))
         for cat, dd, AA in [(x, d, A) for x in [None] + LABS[:2] + ["zz"]] + [(x, d_other, A_other) for x in [None, LABS[0]]] + [(None, d, A)]:
             try:
@@ -132,7 +137,7 @@ def disorder_records(pa, rng, count, rep):
             except Exception as ex:
                 rep.violation("gammacat.raises", {"exception": repr(ex), "category": cat, "continuum": align.continuum_summary(c)})
                 continue
-            recs.append({"kind": "disorder", "alpha": AA["alpha"], "de": AA["de"], "cattype": AA["cattype"], "M": AA["M"],
+            recs.append({"kind": "disorder", "alpha": AA["alpha"], "ad": AA["ad"], "de": AA["de"], "cattype": AA["cattype"], "M": AA["M"],
                          "category": 0 if cat is None else rank[cat], "tuples": encode_alignment(al), "obs": fxv(v),
                          "observed": 0, "chance": [], "value": 0, "which": "", "raised": ""})
             metas.append({"alignment": kind, "category": cat, "A": AA, "value": float(v), "continuum": align.continuum_summary(c),
@@ -218,6 +223,8 @@ def combine_records(pa, rng, count, rep):
 
 def judge(recs):
     path = scratch() / f"gcat-{random.getrandbits(32):08x}.json"
+    for r in recs:
+        r.setdefault("ad", 1)
     path.write_text(json.dumps({"recs": recs}))
     res = tlc.run("TraceGammaCat", "SPECIFICATION Spec\nCONSTRAINT Verdicts\n", label="TraceGammaCat", env={"TRACE_FILE": str(path)},
                   workers=16, timeout=1500, coverage=False)
